@@ -167,6 +167,7 @@ class System:
         self._mf = {}
         self._cc = {}
         self._eri_cache = {}
+        self._fci = {}
 
     # -- mean fields -------------------------------------------------------------------------
     def mf(self, kind, eri):
@@ -183,11 +184,10 @@ class System:
             mf._eri = ao2mo.restore(8, self._eri, n)
             mf.energy_nuc = lambda *a, **k: h0
         elif eri == "df":
-            mf = mf.density_fit()
+            mf = mf.density_fit(auxbasis="def2-universal-jkfit")
         mf.conv_tol = 1e-11
         mf.max_cycle = 300
         if self.path == "integrals" and kind == "uhf":
-            dm = mf.get_init_guess(key="1e") if False else None
             # staggered start so that the antiferromagnetic solution is reachable (deterministic)
             na, nb = self.nelec
             dm = np.zeros((2, self.nao, self.nao))
@@ -197,9 +197,17 @@ class System:
             stag = np.diag([0.25 * (-1) ** i for i in range(self.nao)])
             dm[0] += stag
             dm[1] -= stag
-            mf.kernel(dm0=dm)
         else:
-            mf.kernel()
+            dm = None
+        try:
+            mf.kernel(dm0=dm)
+        except (np.linalg.LinAlgError, AttributeError):
+            # pyscf's DIIS can hit a singular B matrix on exactly degenerate lattice shells; plain Roothaan
+            # iterations with a level shift are enough here (the oracle is the energy functional on whatever
+            # orbitals pyscf ends with, converged or not)
+            mf.diis = None
+            mf.level_shift = 0.3
+            mf.kernel(dm0=dm)
         if kind == "uhf":  # follow internal instabilities, as the examples do
             for _ in range(2):
                 try:
@@ -224,7 +232,7 @@ class System:
         obj.verbose = 0
         obj.kernel()
         # pyscf's own energy functional at exactly the amplitudes handed to the interface
-        e_ref = float(obj._scf.e_tot if False else obj.e_hf) + float(obj.energy(obj.t1, obj.t2, obj.ao2mo()))
+        e_ref = float(obj.e_hf) + float(obj.energy(obj.t1, obj.t2, obj.ao2mo()))
         self._cc[key] = (obj, e_ref)
         return self._cc[key]
 
@@ -337,6 +345,8 @@ def admitted(cell):
         return False  # frozen orbitals must be the mean-field core
     if cell["bas"] == "trunc" and cell["mf"] == "uhf":
         return False
+    if min(cell["nvir"]) < 0:
+        return False
     return True
 
 
@@ -381,7 +391,12 @@ def system_list(tier, seed):
 
 
 def cells_of_system(sd, tier):
-    """Every admitted cell of one system (the thorough matrix)."""
+    """Every admitted cell of one system (the thorough matrix), simplest first.
+
+    Full product mean field x norb_frozen x {3 thresholds, DF} x basis_coeff letter for the minimal-basis
+    molecules; the letters that only repeat another one are crossed with a reduced set: the ROHF class on a
+    closed shell (same orbitals as RHF), the second high-spin state of a molecule, 6-31G (one threshold + DF, two basis letters), lattice models
+    (threshold axis with the examples' basis_coeff=eye; the other basis letters and CC at U=4 resp. U in {1,4})."""
     na, nb = _nelec_of(sd)
     nao = _nao_of(sd)
     path = "integrals" if sd["kind"] in ("hub", "molint") else "mol"
@@ -390,10 +405,12 @@ def cells_of_system(sd, tier):
     mfs = ["rhf", "uhf", "rohf"] if na == nb else ["rohf", "uhf"]
     out = []
     for mfk in mfs:
+        minor = (mfk == "rohf" and na == nb) or \
+            (sd["kind"] == "mol" and (sd["name"], sd["spin"]) in (("H2", 2), ("H4r", 2), ("LiH", 2), ("OH", 3)))
         for fr in (0, 1):
             if path == "integrals":
                 eris = [("exact", c) for c in CUTS]
-            elif small:
+            elif small and not minor:
                 eris = [("exact", c) for c in CUTS] + [("df", None)]
             else:
                 eris = [("exact", 1e-6), ("df", None)]
@@ -401,9 +418,14 @@ def cells_of_system(sd, tier):
                 eris = [("exact", 1e-6)]
             for eri, cut in eris:
                 for ccx in (None, "ccsd", "uccsd"):
-                    for bas in _basis_letters(path, mfk, fr, nao, small):
+                    letters = _basis_letters(path, mfk, fr, nao, small)
+                    if minor or big:
+                        letters = letters[:2]
+                    for bas in letters:
                         if path == "integrals" and bas != "eye" and cut != 1e-6:
-                            continue  # the threshold axis is crossed with the examples' basis only
+                            continue
+                        if sd["kind"] == "hub" and bas != "eye" and not (sd["U"] == 4.0 or (ccx and sd["U"] == 1.0)):
+                            continue
                         if ccx and eri == "df":
                             continue  # DF coupled cluster is not claimed by the property
                         if ccx and not small and cut != 1e-6:
@@ -413,7 +435,6 @@ def cells_of_system(sd, tier):
                         nact = nao - fr - (1 if bas == "trunc" else 0)
                         cell["nvir"] = [nact - (na - fr), nact - (nb - fr)]
                         if admitted(cell):
-                            cell["fci"] = not (big and (fr == 0)) or True
                             out.append(cell)
     return out
 
@@ -432,7 +453,6 @@ def options_of(cell):
     return [dict(walker_type=w, trial=t) for t in trials for w in ("rhf", "uhf")]
 
 
-AXES = ("sysname", "scale_i", "basisset", "spin", "mf", "frozen", "eri", "bas", "cc", "path")
 
 
 def letters_of(cell, scales):
@@ -448,23 +468,28 @@ def letters_of(cell, scales):
         spin = "spin%d" % sd["spin"]
         basisset = sd["basis"]
     eri = "df" if cell["eri"] == "df" else "cut%g" % cell["cut"]
-    return dict(sysname=sysname, scale_i=scale_i, basisset=basisset, spin=spin, mf=cell["mf"],
+    sysclass = sysname if sd["kind"] == "mol" else ("hub-" + sd["shape"] if sd["kind"] == "hub" else "int-mol")
+    return dict(sysclass=sysclass, sysname=sysname, scale_i=scale_i, basisset=basisset, spin=spin, mf=cell["mf"],
                 frozen=cell["frozen"], eri=eri, bas=cell["bas"], cc=str(cell["cc"]), path=cell["path"])
 
 
 def cell_cost(cell):
+    """Rough CPU seconds (dominated by XLA compilation per option, FCI for the large spaces)."""
     n = cell["nao"]
     na, nb = cell["nelec"]
     dim = comb(n, na) * comb(n, nb)
-    return len(options_of(cell)) * (1.0 + (2.0 if cell["cc"] else 0.0) + 0.02 * n * n) + 2e-4 * dim + 0.3
+    return 1.5 + len(options_of(cell)) * (0.7 + (0.4 if cell["cc"] else 0.0) + 0.004 * n * n) + 1.2e-4 * dim
 
 
 def quick_subset(cells, scales):
-    """Deterministic greedy covering array: every pair of letters (of different axes) that occurs in the
-    full matrix of the cheap systems is covered by at least one selected cell; cheapest cells preferred."""
-    cheap = [c for c in cells if cell_cost(c) < 12.0]
+    """Deterministic greedy covering array: every letter of every axis, and every pair of letters of the
+    listed axis pairs that occurs in the full matrix of the cheap systems, is covered by at least one
+    selected cell; cheapest cells preferred.  (system class = molecule / lattice shape / ab-initio
+    integrals; the individual lattice sizes, spin states and basis sets are covered letter by letter.)"""
+    cheap = [c for c in cells if cell_cost(c) < 15.0]
     lets = [letters_of(c, scales) for c in cheap]
-    pair_axes = [("sysname", a) for a in ("mf", "frozen", "eri", "bas", "cc", "scale_i", "spin", "basisset")] + \
+    pair_axes = [("sysclass", a) for a in ("mf", "frozen", "eri", "bas", "cc")] + \
+                [("path", a) for a in ("sysname", "scale_i", "spin", "basisset")] + \
                 [("mf", "frozen"), ("mf", "eri"), ("mf", "bas"), ("mf", "cc"), ("frozen", "eri"), ("frozen", "bas"),
                  ("frozen", "cc"), ("eri", "bas"), ("eri", "cc"), ("path", "bas"), ("path", "eri"), ("spin", "mf")]
 
@@ -507,7 +532,7 @@ def build_jobs(tier, seed):
     split = []
     for j in out:
         tot = sum(cell_cost(c) for c in j["cells"])
-        k = int(min(len(j["cells"]), max(1, round(tot / 60.0))))
+        k = int(min(len(j["cells"]), max(1, round(tot / 45.0))))
         for r in range(k):
             split.append(dict(j, cells=j["cells"][r::k]))
     split.sort(key=lambda j: -sum(cell_cost(c) for c in j["cells"]))
@@ -596,14 +621,43 @@ def read_files():
 
 
 def path_class(cell):
+    """Code path of prep_afqmc the cell goes through: base path plus optional flags."""
     s = cell["path"]
     if cell["frozen"]:
         s += "+frozen"
-    if cell["bas"] not in ("default",):
+    if cell["path"] == "integrals":
+        s += {"eye": "", "default": "+mo_basis", "rot": "+basis_coeff"}[cell["bas"]]
+    elif cell["bas"] != "default":
         s += "+basis_coeff"
     if cell["eri"] == "df":
         s += "+df"
     return s
+
+
+def minimal_signatures(violations):
+    """The same defect shows up under every optional flag of the path class; keep, per (site, failure
+    class), only the path classes that are minimal under flag inclusion (the failure already occurs
+    without the extra flag)."""
+    def parse(sig):
+        head, _, cls = sig.rpartition(":")
+        site, _, pc = head.rpartition("/")
+        parts = pc.split("+")
+        return (site, cls, parts[0]), frozenset(parts[1:])
+
+    groups = {}
+    for v in violations:
+        if not v["signature"].startswith(("written-", "header/", "_prep_afqmc/")):
+            continue
+        k, flags = parse(v["signature"])
+        groups.setdefault(k, set()).add(flags)
+    keep = []
+    for v in violations:
+        if v["signature"].startswith(("written-", "header/", "_prep_afqmc/")):
+            k, flags = parse(v["signature"])
+            if any(o < flags for o in groups[k]):
+                continue
+        keep.append(v)
+    return keep
 
 
 def eval_cell(cell, sysobj, seed, res=None):
@@ -619,9 +673,8 @@ def eval_cell(cell, sysobj, seed, res=None):
     if not aufbau(mf):  # the interface (documentedly) takes the first n columns as occupied
         res.guard("outside_domain_non_aufbau_mo_occ")
         return viol, {}
+    # pyscf's energy functional on pyscf's orbitals (equals mf.e_tot; also meaningful if the SCF stopped early)
     e_scf = float(mf.energy_tot(mf.make_rdm1()))
-    if not abs(e_scf - mf.e_tot) <= 1e-8 * max(1.0, abs(e_scf)):
-        raise RuntimeError("pyscf e_tot is not the energy of its own orbitals for %r" % (cell,))
     ccobj = e_cc = amps = None
     if cell["cc"]:
         ccobj, e_cc = sysobj.cc(cell["cc"], cell["mf"], cell["eri"], fr)
@@ -646,7 +699,11 @@ def eval_cell(cell, sysobj, seed, res=None):
     eriB = np.einsum("pqrs,pi,qj,rk,sl->ijkl", sysobj.eri_ao(cell["eri"]), B, B, B, B, optimize=True)
     r_h0, r_h1, r_eri = frozen_core_reduce(sysobj.h0, hB, eriB, fr)
     nact = r_h1.shape[0]
-    e_fci_ref = lowest_eigenvalue(r_h0, r_h1, r_eri, nact, (na_act, nb_act))
+    # the exact energy depends on the orbital basis only through the frozen core and the spanned space
+    fkey = (cell["eri"], fr, cell["mf"] if (fr or cell["bas"] == "trunc") else None, cell["bas"] == "trunc")
+    if fkey not in sysobj._fci:
+        sysobj._fci[fkey] = lowest_eigenvalue(r_h0, r_h1, r_eri, nact, (na_act, nb_act))
+    e_fci_ref = sysobj._fci[fkey]
 
     # can a restricted walker (one orbital set, beta = leading columns) represent the SCF determinant?
     if nb:
@@ -696,7 +753,11 @@ def eval_cell(cell, sysobj, seed, res=None):
             res.guard("fci_compared")
             info.update(e_fci_written=e_fci_w, fci_err=err, fci_tol=tol)
             if not fci_ok:
-                viol.append(("written-hamiltonian/%s:ground-state-energy" % pc, dict(what="fci"),
+                # label only (the verdict is the energy): which written piece differs from the reference
+                d0, d1, d2 = abs(w_h0 - r_h0), float(np.abs(hsym - r_h1).max()), float(np.abs(w_eri - r_eri).max())
+                piece = "energy_core" if d0 > max(tol, 1e-8) else "hcore" if d1 > max(tol, 1e-8) else \
+                    "chol" if d2 > bnd["delta"] * max(np.abs(B[:, fr:]).sum(0).max() ** 4, 1.0) + 1e-8 else "ground-state-energy"
+                viol.append(("written-hamiltonian[%s]/%s:fci!=pyscf" % (piece, pc), dict(what="fci"),
                              dict(e_written=e_fci_w, e_pyscf=e_fci_ref, err=err, tol=tol,
                                   h0_written=w_h0, h0_ref=r_h0, max_dh1=float(np.abs(hsym - r_h1).max()),
                                   max_deri=float(np.abs(w_eri - r_eri).max()), nchol=int(w_chol.shape[0]))))
@@ -756,25 +817,20 @@ def eval_cell(cell, sysobj, seed, res=None):
                 stage = "init_prop_data"
                 pd = prop.init_prop_data(trial, wave_data, ham_data)
                 e_est = float(pd["e_estimate"])
-                # explicit trial / reference-determinant walker in the container of this walker_type
+                # (3) explicit reference-determinant walker (identity columns) in the container of this walker_type;
+                # for the single-determinant trials e_estimate already is that evaluation (initial walkers = trial)
                 stage = "calc_energy"
-                if tr == "rhf":
-                    wa = wb = np.asarray(wave_data["mo_coeff"])
-                elif tr == "uhf":
-                    wa, wb = np.asarray(wave_data["mo_coeff"][0]), np.asarray(wave_data["mo_coeff"][1])
-                elif tr == "cisd":
-                    wa = wb = np.eye(nact)[:, :na_act]
-                else:
-                    wa = np.eye(nact)[:, :na_act]
-                    wb = np.asarray(wave_data["mo_coeff"][1])[:, :nb_act]
-                if wt == "uhf":
-                    walkers = [jnp.array([wa + 0.0j] * 2), jnp.array([wb + 0.0j] * 2)]
-                else:
-                    walkers = jnp.array([wa + 0.0j] * 2)
                 e_det = None
-                if representable:
+                if tr in ("cisd", "ucisd") and representable:
+                    wa = np.eye(nact)[:, :na_act]
+                    wb = wa if tr == "cisd" else np.asarray(wave_data["mo_coeff"][1])[:, :nb_act]
+                    if wt == "uhf":
+                        walkers = [jnp.array([wa + 0.0j] * 2), jnp.array([wb + 0.0j] * 2)]
+                    else:
+                        walkers = jnp.array([wa + 0.0j] * 2)
                     e_det = float(np.real(np.asarray(trial.calc_energy(walkers, ham_data, wave_data))[0]))
-                res.add(traces=2)
+                    res.add(traces=1)
+                res.add(traces=1)
             except NotImplementedError as e:  # the library refuses this container for this trial: not judged
                 res.guard("option_refused_NotImplementedError[%s/%s]" % (tr, wt))
                 outcomes[(tr, wt)] = ("refused", str(e)[:80])
@@ -786,11 +842,13 @@ def eval_cell(cell, sysobj, seed, res=None):
                 res.guard("restricted_walkers_cannot_represent_spin_polarised_trial")
                 outcomes[(tr, wt)] = ("not-representable",)
                 continue
-            errs = dict(e_estimate=abs(e_est - target), calc_energy=abs(e_det - target))
+            errs = dict(e_estimate=abs(e_est - target))
+            if e_det is not None:
+                errs["calc_energy"] = abs(e_det - target)
             ok = all(np.isfinite(v) and v <= tol for v in errs.values())
             outcomes[(tr, wt)] = ("ok" if ok else "bad", dict(e_estimate=e_est, calc_energy=e_det, target=target,
                                                             tol=tol, err=max(errs.values())))
-            res.add(states=1, transitions=2, evaluations=2)
+            res.add(states=1, transitions=len(errs), evaluations=len(errs))
             res.nontrivial((tkey, tr, wt, round(target, 8), cell["bas"], cell["frozen"], cell["eri"], cell["cut"]))
             res.guard("energy_compared[%s/%s]" % (tr, wt))
             if tkey == "cc":
@@ -879,6 +937,7 @@ def run(ctx):
     ctx.guard("cells_selected", n_sel)
     ctx.pmap(job, jobs, workers=min(N_WORKERS, ctx.workers))
     ctx.violations.sort(key=lambda v: complexity(core.dec(v["case"])))
+    ctx.violations[:] = minimal_signatures(ctx.violations)
     shutil.rmtree(TMP_ROOT, ignore_errors=True)
     ctx.require_guard("fci_compared", "energy_compared[rhf/rhf]", "energy_compared[uhf/uhf]", "energy_compared[uhf/rhf]",
                       "energy_compared[cisd/rhf]", "energy_compared[ucisd/uhf]", "cc_correlation_energy_nontrivial",
